@@ -4,7 +4,9 @@
 pub mod c01;
 pub mod c02;
 pub mod c04;
+pub mod c07;
 pub mod c09;
+pub mod c10;
 pub mod store;
 pub mod hist;
 pub mod memkv;
